@@ -183,6 +183,25 @@ func (fr *Frame) doCall(site ssa.Instruction, c *ssa.CallCommon, fv Val, args []
 		}
 	}
 	for _, k := range keys {
+		for _, sd := range setsFor(k) {
+			if !sd.Before {
+				continue
+			}
+			srt, ok := vc.eng.cs.Ghosts[sd.Ghost]
+			if !ok {
+				panic(fmt.Errorf("contract %s: reset of undeclared ghost %s", fr.ct.Key, sd.Ghost))
+			}
+			cev := fr.evaluator(st)
+			bind(cev)
+			v := cev.eval(sd.E)
+			t, isT := v.v.(T)
+			if !isT || t.Sort != srt {
+				panic(fmt.Errorf("contract %s: reset %s: sort mismatch", fr.ct.Key, sd.Ghost))
+			}
+			st.setGlob(sd.Ghost, vc.name(sd.Ghost, t))
+		}
+	}
+	for _, k := range keys {
 		if cls := assertsFor(k); len(cls) > 0 {
 			cev := fr.evaluator(st)
 			bind(cev)
@@ -198,6 +217,9 @@ func (fr *Frame) doCall(site ssa.Instruction, c *ssa.CallCommon, fv Val, args []
 	res, c2 := fr.doCall0(site, c, fv, args, cond, st)
 	for _, k := range keys {
 		for _, sd := range setsFor(k) {
+			if sd.Before {
+				continue
+			}
 			srt, ok := vc.eng.cs.Ghosts[sd.Ghost]
 			if !ok {
 				panic(fmt.Errorf("contract %s: set of undeclared ghost %s", fr.ct.Key, sd.Ghost))
